@@ -752,6 +752,23 @@ impl VerifSpec {
     }
 }
 
+/// Runs the real parser over `pattern` to exhaustion, leaking every piece (the pieces' drop
+/// glue is not the subject): number of pieces and how many of them are errors.
+#[cfg(log4rs_verif)]
+#[doc(hidden)]
+pub fn verif_parse_all(pattern: &str) -> (usize, usize) {
+    let mut pieces = 0;
+    let mut errors = 0;
+    for piece in Parser::new(pattern) {
+        if let Piece::Error(_) = piece {
+            errors += 1;
+        }
+        pieces += 1;
+        std::mem::forget(piece);
+    }
+    (pieces, errors)
+}
+
 /// The real `Parser::parameters` on the text of a format spec (from the ':' on): the parsed
 /// spec, or `None` when the parser reports an error, and the offset of the first byte left over.
 #[cfg(log4rs_verif)]
